@@ -228,6 +228,8 @@ impl SourceView {
     /// Note that columns are indexed as JavaScript WTF-16 columns.
     pub fn get_line_slice(&self, line: u32, col: u32, span: u32) -> Option<&str> {
         self.get_line(line).and_then(|line| {
+            // `col + span` can exceed `u32::MAX`
+            let end = u64::from(col) + u64::from(span);
             let mut off = 0;
             let mut idx = 0;
             let mut char_iter = line.chars().peekable();
@@ -243,14 +245,14 @@ impl SourceView {
 
             let mut off_end = off;
             for c in char_iter {
-                if idx >= (col + span) as usize {
+                if idx as u64 >= end {
                     break;
                 }
                 off_end += c.len_utf8();
                 idx += c.len_utf16();
             }
 
-            if idx < ((col + span) as usize) {
+            if (idx as u64) < end {
                 None
             } else {
                 line.get(off..off_end)
